@@ -521,3 +521,67 @@ alloc_clone_step!(allocc_q_clonefrom_n2_f1_into_n3_f2, src = (2, 1), dst = (3, 2
 alloc_clone_step!(allocc_t_clonefrom_n3_f2_into_n1_f0, src = (3, 2), dst = (1, 0), from = true);
 alloc_clone_step!(allocc_t_clonefrom_n0_into_n2_f2, src = (0, 0), dst = (2, 2), from = true);
 alloc_clone_step!(allocc_t_clone_n4_f4, src = (4, 4), dst = (0, 0), from = false);
+
+// ------------------------------------------------------------------------------------------
+// Allocator::shrink_to_fit (World::shrink_to_fit's allocator half): only capacity may change.
+// Slots are never removed - their generations are what keeps stale identifiers dead.
+// ------------------------------------------------------------------------------------------
+
+macro_rules! alloc_shrink_step {
+    ($name:ident, $N:expr, $F:expr) => {
+        #[kani::proof]
+        #[kani::unwind(8)]
+        pub fn $name() {
+            const N: usize = $N;
+            const F: usize = $F;
+            let id0 = ident::<RAB>(vec![3]);
+            let id1 = ident::<RAB>(vec![1]);
+            // SAFETY: the buffers outlive every use of the references below.
+            let refs = unsafe { [id0.as_ref(), id1.as_ref()] };
+            let (mut a, free) = any_allocator::<RAB, N, F>(&refs);
+            let before = snap_alloc::<RAB, N>(&a);
+            let probe = entity::Identifier::new(kani::any(), kani::any());
+            let probe_before = a.get(probe);
+
+            a.shrink_to_fit();
+
+            vassert!(a.slots.len() == N, "shrink_to_fit never removes a slot (its generation keeps stale identifiers dead)");
+            vassert!(a.free.len() == F, "shrink_to_fit keeps every free entry");
+            let mut j = 0;
+            while j < F {
+                vassert!(a.free[j] == free[j], "shrink_to_fit keeps the free-list order");
+                j += 1;
+            }
+            let mut i = 0;
+            while i < N {
+                let s = snap_slot(&a.slots[i]);
+                vassert!(
+                    s.generation == before[i].generation && s.active == before[i].active
+                        && s.loc_ptr == before[i].loc_ptr && s.loc_index == before[i].loc_index,
+                    "shrink_to_fit leaves every slot as it was"
+                );
+                i += 1;
+            }
+            vassert!(alloc_inv(&a), "AllocInv after shrink_to_fit");
+            let probe_after = a.get(probe);
+            vassert!(probe_after.is_some() == probe_before.is_some(), "shrink_to_fit changes no identifier's liveness");
+            // and the next identifier issued for a freed slot is still a new one
+            if F > 0 {
+                let id = a.allocate(Location::new(refs[0], 0));
+                let mut i = 0;
+                while i < N {
+                    if i == free[0] {
+                        vassert!(id.index == i && id.generation == before[i].generation + 1, "reuse after shrink_to_fit still bumps the generation");
+                    }
+                    i += 1;
+                }
+            }
+            kani::cover!(true, "reached end");
+        }
+    };
+}
+
+// the freed slot may be the highest-numbered one (symbolic free list covers it)
+alloc_shrink_step!(allocs_q_n3_f2, 3, 2);
+alloc_shrink_step!(allocs_t_n4_f4, 4, 4);
+alloc_shrink_step!(allocs_t_n2_f0, 2, 0);
